@@ -84,7 +84,7 @@ static void work_apply(void *c, size_t i){ (void)i; item_t *it=c; // apply invoc
   if (rnd()%4==0) sched_yield(); atomic_fetch_sub(&running[q],1); }
 static int nops, serial_only; static atomic_int expected;
 static void *client(void *a){ int me=(int)(intptr_t)a; dispatch_group_t g=dispatch_group_create();
-  for (int i=0;i<nops;i++){ int q = serial_only? 0 : (int)(rnd()%NQ); int k = (int)(rnd()%15); if (k==7 && rnd()%8) k=0;
+  for (int i=0;i<nops;i++){ int q = serial_only? 0 : (int)(rnd()%NQ); int k = (int)(rnd()%16); if (k==7 && rnd()%8) k=0; if (k==15 && rnd()%3) k=0;
     if (k==6){ dispatch_suspend(Q[q]); if (rnd()%2) sched_yield(); dispatch_resume(Q[q]); continue; }
     if (k==7){ int depth = (rnd()%3==0) ? 130 : 70; for (int j=0;j<depth;j++) dispatch_suspend(Q[q]); for (int j=0;j<depth;j++) dispatch_resume(Q[q]); continue; }
     if (k==11){ item_t tmp={ .q=q }; dispatch_apply_f(1+rnd()%4, Q[q], &tmp, work_apply); continue; }
@@ -100,8 +100,10 @@ static void *client(void *a){ int me=(int)(intptr_t)a; dispatch_group_t g=dispat
       case 12: case 13: case 14: { dispatch_block_t bo=dispatch_block_create(bflag?DISPATCH_BLOCK_BARRIER:0, ^{ work(it); });
         if(k==12) dispatch_async_and_wait(Q[q],bo); else if(k==13) dispatch_sync(Q[q],bo); else dispatch_async(Q[q],bo);
         _Block_release(bo); break; }
+      case 15: { dispatch_block_t bo=dispatch_block_create(bflag?DISPATCH_BLOCK_BARRIER:0, ^{ work(it); });      // delivered by a timer source: the block reaches the queue when the timer fires
+        dispatch_after(dispatch_time(DISPATCH_TIME_NOW,(int64_t)(200000+rnd()%2000000)), Q[q], bo); _Block_release(bo); break; }
       default: dispatch_async_f(Q[q], it, work); break; }
-    for(int w=0;w<NQ;w++) win_close(w); mark("MARK_ret", q, idx); atomic_store(&it->ret, atomic_fetch_add(&clk,1)+1);
+    for(int w=0;w<NQ;w++) win_close(w); mark("MARK_ret", q, idx); atomic_store(&it->ret, k==15 ? 0 : atomic_fetch_add(&clk,1)+1);   // (an item delivered later has no "submission returned" moment)
     if (it->sync && !atomic_load(&it->end)) fail("synchronous submission returned before its item finished: item/kind", idx, k, 0); }
   dispatch_group_wait(g, DISPATCH_TIME_FOREVER); dispatch_release(g);
   return NULL; }
@@ -164,11 +166,17 @@ int main(int argc, char **argv){
   seed = argc>1 ? strtoull(argv[1],0,0) : 1; int nthr = argc>2 ? atoi(argv[2]) : 4; nops = argc>3 ? atoi(argv[3]) : 200; serial_only = argc>4 ? atoi(argv[4]) : 0;
   marks = getenv("TR_LANE_MARKS")!=NULL; evs = calloc(MAXEV, sizeof(ev_t)); items=calloc(MAXIT,sizeof(item_t));
   int chain = argc>5 ? atoi(argv[5]) : 0;     // 1: the serial queue targets the concurrent one (a hierarchy whose inner level is concurrent and not a root queue)
-  Q[1] = dispatch_queue_create("c", DISPATCH_QUEUE_CONCURRENT);
+                                              // 2: as 1, and the concurrent queue targets a second concurrent queue (asynchronous items are redirected through two levels)
+  dispatch_queue_t MID = chain==2 ? dispatch_queue_create("m", DISPATCH_QUEUE_CONCURRENT) : NULL;
+  Q[1] = MID ? dispatch_queue_create_with_target("c", DISPATCH_QUEUE_CONCURRENT, MID) : dispatch_queue_create("c", DISPATCH_QUEUE_CONCURRENT);
   Q[0] = chain ? dispatch_queue_create_with_target("s", DISPATCH_QUEUE_SERIAL, Q[1]) : dispatch_queue_create("s", DISPATCH_QUEUE_SERIAL);
   int width = argc>6 ? atoi(argv[6]) : 0;     // > 0: narrow mode (the concurrent queue is limited to this width)
   if(width>0){ dispatch_queue_set_width(Q[1],width); dispatch_barrier_sync(Q[1],^{}); }
   for(int i=0;i<NQ;i++){ stateoff[i]=(long)((char*)_dispatch_verif_queue_state_addr(Q[i])-(char*)Q[i]); printf("Q %d width %d stateoff %ld\n", i, i==0?1:(width>0?width:4094), stateoff[i]); }
+  // what the queues look like at rest: suspension, barrier, width in use, pending barrier
+  const uint64_t REST = 0xff80000000000000ull | 0x0040000000000000ull | 0x0020000000000000ull | 0x003ffe0000000000ull | 0x0000010000000000ull;
+  dispatch_queue_t RQ[3] = { Q[0], Q[1], MID }; uint64_t rest0[3] = {0,0,0};
+  for(int i=0;i<3;i++) if(RQ[i]){ dispatch_barrier_sync(RQ[i],^{}); rest0[i] = *(volatile uint64_t*)_dispatch_verif_queue_state_addr(RQ[i]) & REST; }
   _dispatch_verif_yield_cb = ycb; _dispatch_verif_atomic_cb = cb;
   pthread_t wd; pthread_create(&wd,0,watchdog,0);
   pthread_t th[64];
@@ -180,6 +188,14 @@ int main(int argc, char **argv){
   _dispatch_verif_atomic_cb = 0; _dispatch_verif_yield_cb = 0;
   if (atomic_load(&done_items) < atomic_load(&expected)) { printf("STUCK %d of %d items done\n", atomic_load(&done_items), atomic_load(&expected)); dump(); return 3; }
   oracle();
+  // at rest again: every queue of the chain still accepts and runs a barrier item, and its state word shows the same width in use,
+  // barrier and suspension bits as before the run (a unit of width or a suspension that is not given back shows here long before
+  // the queue runs out of it)
+  for(int i=2;i>=0 && !viol;i--) if(RQ[i]){ __block atomic_int ran=0; atomic_int *rp=&ran; dispatch_barrier_async(RQ[i],^{ atomic_store(rp,1); });
+    for(int w=0; w<10000 && !atomic_load(&ran); w++) usleep(1000);
+    if(!atomic_load(&ran)){ printf("STUCK a barrier item submitted after the run to queue %d of the chain (0 serial, 1 concurrent, 2 the concurrent queue's concurrent target) never ran\n", i); dump(); return 3; }
+    uint64_t now=0; for(int w=0; w<2000; w++){ now = *(volatile uint64_t*)_dispatch_verif_queue_state_addr(RQ[i]) & REST; if(now==rest0[i]) break; usleep(1000); }
+    if(now!=rest0[i]) fail("a queue at rest after the run does not show the width / barrier / suspension bits it showed at rest before the run: queue (0 serial, 1 concurrent, 2 its concurrent target) / bits before >> 40 / bits after >> 40", i, (long)(rest0[i]>>40), (long)(now>>40)); }
   if (viol) printf("ORACLE VIOL seed=%llu %s\n",(unsigned long long)seed,vmsg); else printf("ORACLE ok items=%d events=%lu sync_fastpath_overtakes=%ld\n", atomic_load(&nitems), atomic_load(&nev), known_overtakes);
   dump();
   return viol?1:0; }
